@@ -818,6 +818,10 @@ func matchesAcl(acl value.Acl, ip net.IP) (bool, error) {
 	// The most specific entry (longest prefix) which contains the address decides:
 	// the address matches unless that entry is negated. The order of the entries is irrelevant.
 	matched, negated, longest := false, false, int64(-1)
+	if acl.Value == nil {
+		// A declared ACL variable which refers to no ACL yet matches no address
+		return false, nil
+	}
 	for _, entry := range acl.Value.CIDRs {
 		// An entry without mask is a single host
 		var mask int64 = 32
